@@ -33,7 +33,7 @@ def run(ctx, res):
     # framing rules are imported only as far as the residue entries rely on them (and S-closed / A-err for the dead
     # unreachable!() arm); clauses that belong to C03/C05 alone do not alarm here
     import engine
-    fr = engine.Filtered(res, {"A-shape", "A-ext", "A-out", "S-closed", "S-ok", "S-inc", "S-end", "S-shape", "I-iter", "N-pres", "A-len"})
+    fr = engine.Filtered(res, {"A-shape", "A-ext", "A-out", "A-sem", "S-closed", "S-ok", "S-inc", "S-end", "S-shape", "I-iter", "N-pres", "A-len"})
     m = framing.rules_new(prog, fr)
     if m.ok and len(m.oks) == 1:
         framing.rule_n_pres(prog, fr, m)
